@@ -79,6 +79,19 @@ def check_case(case):
     want = 3 * (hdr + tot_s) + (hdr + tot_f)
     if libx.call('GetWeight', b.GetWeight)[1] != want:
         raise Violation('weight/block', 'GetWeight()=%d expected %d' % (b.GetWeight(), want))
+    # the same block asked again, in the opposite order: weights, then witness root, then root (memoised trees / sizes must
+    # not depend on what was computed first)
+    b3 = libx.call('construct', CBlock, vtx=vtx)[1]
+    if libx.call('GetWeight', b3.GetWeight)[1] != want or libx.call('GetWeight', b.GetWeight)[1] != want:
+        raise Violation('weight/block-order', 'GetWeight() differs when asked first / asked again')
+    if haswit and (libx.call('calc_witness_merkle_root', b3.calc_witness_merkle_root)[1] != wroot
+                   or libx.call('calc_witness_merkle_root', b.calc_witness_merkle_root)[1] != wroot):
+        raise Violation('wroot/order', 'witness merkle root differs when asked before the merkle root / asked again')
+    if libx.call('calc_merkle_root', b3.calc_merkle_root)[1] != root or libx.call('calc_merkle_root', b.calc_merkle_root)[1] != root:
+        raise Violation('root/order', 'merkle root differs when asked after the witness root / asked again')
+    for t, o in zip(txs[:3], b3.vtx[:3]):
+        if libx.call('calc_weight', o.calc_weight)[1] != 3 * len(W.enc_tx(t, False)) + len(W.enc_tx(t, True)) or o.GetTxid() != W.txid(t):
+            raise Violation('weight/tx-order', 'calc_weight() / GetTxid() of a transaction differ after the block computations')
     # deserialised block computes the same trees
     d = CBlock.deserialize(b.serialize())
     if d.calc_merkle_root() != root or tuple(d.vMerkleTree)[-1] != root:
